@@ -133,20 +133,21 @@ def parseLoop (syn : Pol) : Nat → Fields → List Tag → Stream → ParseRes
   | 0, _, fnd, _ => .err .other fnd          -- out of fuel: shown unreachable (C05)
   | fuel + 1, wf, fnd, s =>
     match (readLine syn s).err with
-    | some .reader => .err .reader fnd
-    | some .eoh =>
-      if (readLine syn s).line.isEmpty then .ok wf fnd ⟨[], s.fault⟩
+    | none => parseRest syn (parseLoop syn fuel) wf fnd (readLine syn s) false s.fault
+    | some e =>
+      if e == .reader then .err .reader fnd
+      else if e == .eoh then
+        (if (readLine syn s).line.isEmpty then .ok wf fnd ⟨[], s.fault⟩
+         else
+          match syn with
+          | .fail => .err .synMissingNewline fnd
+          | .warn => parseRest syn (parseLoop syn fuel) wf (fnd ++ [.synMissingNewline]) (readLine syn s) true s.fault
+          | .ignore => parseRest syn (parseLoop syn fuel) wf fnd (readLine syn s) true s.fault)
       else
         match syn with
-        | .fail => .err .synMissingNewline fnd
-        | .warn => parseRest syn (parseLoop syn fuel) wf (fnd ++ [.synMissingNewline]) (readLine syn s) true s.fault
-        | .ignore => parseRest syn (parseLoop syn fuel) wf fnd (readLine syn s) true s.fault
-    | some e =>
-      match syn with
-      | .fail => .err e fnd
-      | .warn => parseRest syn (parseLoop syn fuel) wf (fnd ++ [e]) (readLine syn s) false s.fault
-      | .ignore => parseRest syn (parseLoop syn fuel) wf fnd (readLine syn s) false s.fault
-    | none => parseRest syn (parseLoop syn fuel) wf fnd (readLine syn s) false s.fault
+        | .fail => .err e fnd
+        | .warn => parseRest syn (parseLoop syn fuel) wf (fnd ++ [e]) (readLine syn s) false s.fault
+        | .ignore => parseRest syn (parseLoop syn fuel) wf fnd (readLine syn s) false s.fault
 
 /-- Parse on a stream -/
 def parseFields (syn : Pol) (s : Stream) : ParseRes := parseLoop syn (s.rest.length + 2) [] [] s
